@@ -335,6 +335,95 @@ Section Structure.
     - rewrite <- Hb, Eb. unfold count_tracks, is_track. simpl. rewrite !filter_app, !app_length. simpl.
       rewrite Hk, (gutter_ok_kind _ _ _ Hg). reflexivity.
   Qed.
+  (* ---- wf_tracks read by index *)
+  Lemma wf_tracks_index gap l : wf_tracks gap l ->
+    let n := count_tracks l in
+    length l = (2 * n + 1)%nat /\
+    (exists g0, nth_error l 0 = Some g0 /\ outer_gutter g0) /\
+    (forall i, (i < n)%nat -> exists t g,
+        nth_error l (2 * i + 1) = Some t /\ nth_error l (2 * i + 2) = Some g /\ kind t = KTrack /\
+        ((S i = n /\ outer_gutter g) \/ ((S i < n)%nat /\ inner_gutter gap t g))).
+  Proof.
+    destruct l as [|g0 rest]; [intros []|]. intros [Ho Hr].
+    assert (Hc : count_tracks (g0 :: rest) = count_tracks rest).
+    { unfold count_tracks, is_track. simpl. destruct Ho as [Hk _]. rewrite Hk. reflexivity. }
+    cbv zeta. rewrite Hc. destruct Hr as [Er|Hr].
+    - subst rest. split; [reflexivity|]. split; [exists g0; auto|]. intros i Hi. unfold count_tracks in Hi. simpl in Hi. lia.
+    - destruct (wf_rest_length gap rest Hr) as [Hl _]. split; [simpl; lia|]. split; [exists g0; auto|].
+      intros i Hi. destruct (wf_rest_nth gap rest Hr i Hi) as [t [g [E1 [E2 [Hk Hd]]]]].
+      exists t, g. replace (2 * i + 1)%nat with (S (2 * i)) by lia. replace (2 * i + 2)%nat with (S (2 * i + 1)) by lia.
+      simpl nth_error. auto.
+  Qed.
+
+  (* ---- 11.4 on a track whose min and max sizing functions are the same definite value (gutters, fixed tracks) *)
+  Lemma initialize_sizes_nth inner tracks i t : nth_error tracks i = Some t ->
+    minf t = maxf t -> forall v, definite_value inner (minf t) = Some v ->
+    exists t', nth_error (initialize_track_sizes inner tracks) i = Some t' /\
+               base_size t' = v /\ growth_limit t' = v /\ kind t' = kind t /\ minf t' = minf t /\ maxf t' = maxf t.
+  Proof.
+    intros Hi Hmm v Hv. unfold initialize_track_sizes.
+    eexists. split; [apply (map_nth_error _ _ _ Hi)|]. cbv beta. rewrite <- Hmm, Hv. simpl.
+    repeat split; auto. destruct (ltb v v); reflexivity.
+  Qed.
+
+  (* the generated counting table is the expansion rule of the template *)
+  Definition spec_entry_count (reps : N) (e : tsf T) : N :=
+    match e with
+    | TSingle _ => 1
+    | TRepeat (RCount c) ts => c * N.of_nat (length ts)
+    | TRepeat _ ts => reps * N.of_nat (length ts)
+    end.
+  Definition spec_count (reps : N) (template : list (tsf T)) : N := nsum (map (spec_entry_count reps) template).
+
+  Lemma non_auto_is_spec0 template : non_auto_count_explicit template = spec_count 0 template.
+  Proof.
+    unfold non_auto_count_explicit, spec_count. f_equal. apply map_ext. intro e.
+    destruct e as [t|r ts]; [reflexivity|]. destruct r; reflexivity.
+  Qed.
+
+  Lemma spec_count_reps reps template :
+    n_auto template = 1%nat ->
+    spec_count reps template = (spec_count 0 template + N.of_nat (length (repetition_definition template)) * reps)%N.
+  Proof.
+    unfold spec_count, n_auto, repetition_definition.
+    induction template as [|e rest IH]; intro Hn; [discriminate|].
+    cbn [map]. rewrite !nsum_cons. destruct e as [t|r ts].
+    - cbn [filter is_auto_repetition find] in *. rewrite (IH Hn). simpl spec_entry_count. lia.
+    - destruct r as [c| |].
+      + cbn [filter is_auto_repetition find] in *. rewrite (IH Hn). simpl spec_entry_count. lia.
+      + cbn [filter is_auto_repetition find length] in *.
+        assert (Hr : length (filter is_auto_repetition rest) = 0%nat) by lia.
+        assert (Hz : forall k, nsum (map (spec_entry_count k) rest) = nsum (map (spec_entry_count 0) rest)).
+        { intro k. f_equal. apply map_ext_in. intros e He. destruct e as [t|r' ts']; [reflexivity|]. destruct r'; [reflexivity| |];
+          exfalso; apply length_zero_iff_nil in Hr;
+          assert (Hin : In (TRepeat RAutoFill ts') (filter is_auto_repetition rest) \/ In (TRepeat RAutoFit ts') (filter is_auto_repetition rest))
+            by (first [left; apply filter_In; split; [exact He|reflexivity] | right; apply filter_In; split; [exact He|reflexivity]]);
+          rewrite Hr in Hin; destruct Hin as [[]|[]]. }
+        rewrite (Hz reps). simpl spec_entry_count. lia.
+      + cbn [filter is_auto_repetition find length] in *.
+        assert (Hr : length (filter is_auto_repetition rest) = 0%nat) by lia.
+        assert (Hz : forall k, nsum (map (spec_entry_count k) rest) = nsum (map (spec_entry_count 0) rest)).
+        { intro k. f_equal. apply map_ext_in. intros e He. destruct e as [t|r' ts']; [reflexivity|]. destruct r'; [reflexivity| |];
+          exfalso; apply length_zero_iff_nil in Hr;
+          assert (Hin : In (TRepeat RAutoFill ts') (filter is_auto_repetition rest) \/ In (TRepeat RAutoFit ts') (filter is_auto_repetition rest))
+            by (first [left; apply filter_In; split; [exact He|reflexivity] | right; apply filter_In; split; [exact He|reflexivity]]);
+          rewrite Hr in Hin; destruct Hin as [[]|[]]. }
+        rewrite (Hz reps). simpl spec_entry_count. lia.
+  Qed.
+
+  (* the reported explicit count is the length of the expanded template (or 0 for an empty / invalid template) *)
+  Theorem explicit_count_spec template inner (gapf : sfn T) mx :
+    let e := explicit_grid_size template inner gapf mx in
+    e = 0%N \/
+    (n_auto template = 0%nat /\ e = spec_count 0 template) \/
+    (n_auto template = 1%nat /\ e = spec_count (num_repetitions template inner gapf mx) template).
+  Proof.
+    intro e. destruct (N.eq_dec e 0) as [E0|E0]; [left; exact E0|]. right.
+    assert (Hpos : (0 < e)%N) by lia.
+    destruct (explicit_size_cases template inner gapf mx Hpos) as [_ [[Hn He]|[Hn He]]]; fold e in He.
+    - left. split; [exact Hn|]. rewrite He. apply non_auto_is_spec0.
+    - right. split; [exact Hn|]. rewrite He, (spec_count_reps _ _ Hn), non_auto_is_spec0. reflexivity.
+  Qed.
 End Structure.
 
 (* ==================================================================================================================
@@ -1018,3 +1107,33 @@ Proof.
       * cbn [base_size set_incurred set_base]. rewrite Eb, Hinc. simpl. lra.
     + exists t. split; [exact Hi|]. rewrite Eb. simpl. reflexivity.
 Qed.
+
+(* ==================================================================================================================
+   Witnesses (exact arithmetic) run through the whole modelled pipeline: initialize_grid_tracks, 11.4, 11.5 restricted
+   to fixed-size leaves, 11.6, 11.7, 11.8 *)
+Definition q_axis (template : list (tsf XQ)) (gap : sfn XQ) (inner : Q) (items : list (nat * XQ)) : list (track XQ) :=
+  let explicit := explicit_grid_size template (Some (Fin inner)) gap true in
+  let tracks0 := initialize_grid_tracks (mk_counts 0 explicit 0) template [] gap (fun _ => true) in
+  track_sizing_algorithm None None true (Definite (Fin inner)) (Some (Fin inner))
+    (resolve_intrinsic_span1 (Some (Fin inner)) items) [] tracks0.
+Definition q_sizes (ts : list (track XQ)) : list XQ := map base_size (filter is_track ts).
+Definition q_gutters (ts : list (track XQ)) : list XQ := map base_size (filter (fun t => negb (is_track t)) ts).
+Definition q_total (ts : list (track XQ)) : XQ := @fsum XQ _ (map base_size ts).
+Definition fr_track (f : Q) : tsf XQ := TSingle (SAuto, SFr (Fin f)).
+Definition px_track (v : Q) : tsf XQ := TSingle (SLength (Fin v), SLength (Fin v)).
+Definition minmax_px (lo hi : Q) : tsf XQ := TSingle (SLength (Fin lo), SLength (Fin hi)).
+Definition template_flex_sum (template : list (tsf XQ)) : XQ :=
+  @fsum XQ _ (map (fun e => match e with TSingle (_, SFr f) => f | _ => Fin 0 end) template).
+
+(* (a) `0.5fr 0.6fr` in 200px, an item of min-content width 100 in the first track *)
+Definition witness_a : list (track XQ) := q_axis [fr_track (1 # 2); fr_track (6 # 10)] (SLength (Fin 0)) 200 [(1%nat, Fin 100)].
+(* (b) `100px minmax(100px, 100.008px)` in 200.016px *)
+Definition witness_b : list (track XQ) := q_axis [px_track 100; minmax_px 100 (100008 # 1000)] (SLength (Fin 0)) (200016 # 1000) [].
+(* (b2) `100px minmax(100px, 100.008px) minmax(100px, 100.009px)` in 400px: two iterations raise the fixed track *)
+Definition witness_b2 : list (track XQ) :=
+  q_axis [px_track 100; minmax_px 100 (100008 # 1000); minmax_px 100 (100009 # 1000)] (SLength (Fin 0)) 400 [].
+(* a well-behaved grid: `1fr 2fr 50px` with gap 10 in 300px *)
+Definition example_fill : list (track XQ) := q_axis [fr_track 1; fr_track 2; px_track 50] (SLength (Fin 10)) 300 [].
+
+Definition xq_eqb_list (a b : list XQ) : bool :=
+  Nat.eqb (length a) (length b) && forallb (fun '(x, y) => x_eqb x y) (combine a b).
